@@ -50,7 +50,12 @@ GNext ==
 
 GSpec == GInit /\ [][GNext]_gvars
 
+\* a tail for the behaviour: a TransactionSet with a replace intent (no other intents) and how it is resolved;
+\* the design model stops before it (a replace intent deliberately decouples the device from the intents),
+\* IntentsTrace.TxReplace judges it
+ReplTail(dummy) == LET i == RandomElement({x \in IntentSet : x.kind = "set"}) IN
+                   [upd |-> i.upd, dry |-> RandomElement(BOOLEAN), end |-> RandomElement({"confirm", "cancel", "wait", "none"})]
 Emit == (Idle /\ Len(hist.steps) > 0) =>
            JsonSerialize(OutDir \o "/b" \o ToString(TLCGet("stats").traces) \o ".json",
-                         [init |-> hist.init, steps |-> hist.steps, answers |-> answers])
+                         [init |-> hist.init, steps |-> hist.steps, answers |-> answers, repltail |-> ReplTail(0)])
 =============================================================================
